@@ -30,6 +30,7 @@ func runC12(c *Ctx) {
 		return
 	}
 	acts := c.actionMethods(ea)
+	offered, _, _ := c.offeredActions(ea)
 	byConst := map[string]*ssa.Function{}
 	for _, am := range acts {
 		byConst[am.Const] = am.Fn
@@ -46,6 +47,98 @@ func runC12(c *Ctx) {
 		c.bad("raise-table", "action:raise", "-", "no action method guarded by raise")
 	} else {
 		runRaiseTable(c, fn, mover, byConst, hi)
+	}
+
+	// ---- min-raise-monotone: an action records a new minimum raise only when the increment is
+	// at least the old one (a short all-in is not a raise and must not shrink the minimum)
+	{
+		nPRS := 0
+		for _, am := range acts {
+			if !offered[am.Const] {
+				continue
+			}
+			fn := am.Fn
+			s := newSumm(p, 0)
+			paths, _ := s.Function(fn)
+			var viol []string
+			nHere := 0
+			for _, ps := range paths {
+				var st *Event
+				for _, e := range ps.Events {
+					if e.Kind == "store" && e.FKey == "pokerface.Status.PreviousRaiseSize" {
+						st = e
+					}
+				}
+				if st == nil {
+					continue
+				}
+				nPRS++
+				nHere++
+				ints, bools := tableVars([]*PathSum{ps})
+				im := map[string]bool{}
+				for _, t := range ints {
+					im[t] = true
+				}
+				for t := range st.Val.asAff().T {
+					if !im[t] {
+						ints = append(ints, t)
+						im[t] = true
+					}
+				}
+				tPRS, tCW := "GS.Status.PreviousRaiseSize", "GS.Status.CurrentWager"
+				if !im[tPRS] {
+					ints = append(ints, tPRS)
+				}
+				tStack, tInit, tWager := findTerm(ints, ".StackSize"), findTerm(ints, ".InitialStackSize"), findTerm(ints, ").Wager")
+				var en []string
+				for _, t := range ints {
+					if t == tStack && tInit != "" {
+						continue
+					}
+					en = append(en, t)
+				}
+				h := int64(5)
+				if len(en) > 6 {
+					h = 3
+				}
+				enumGridR(en, func(string) (int64, int64) { return 0, h }, bools, func(a Asg) bool {
+					if tStack != "" && tInit != "" {
+						w := int64(0)
+						if tWager != "" {
+							w = a.I[tWager]
+						}
+						a.I[tStack] = a.I[tInit] - w
+						if a.I[tStack] < 0 {
+							return false
+						}
+					}
+					if tWager != "" && im[tCW] && a.I[tWager] > a.I[tCW] {
+						return false
+					}
+					if am.Const == "bet" {
+						// a bet is only offered when nobody has wagered: the round's minimum is still unset
+						if a.I[tCW] != 0 || a.I[tPRS] != 0 {
+							return false
+						}
+					}
+					return true
+				}, func(a Asg) bool {
+					holds, ok := evalPath(ps, a)
+					if !ok || !holds {
+						return true
+					}
+					v, ok := evalAff(st.Val.asAff(), a)
+					if ok && v < a.I[tPRS] && len(viol) < 3 {
+						viol = append(viol, fmt.Sprintf("the minimum raise drops from %d to %d (%s) for {%s}", a.I[tPRS], v, st.Val, a.String()))
+					}
+					return len(viol) < 3
+				})
+			}
+			if nHere > 0 {
+				c.check(len(viol) == 0, "min-raise-monotone", fnKey(fn), p.FnPos(fn), "a new minimum raise is recorded only when the increment is at least the old minimum", "an action can shrink the minimum raise: the next undersized raise would be carried out", viol...)
+			}
+		}
+		c.floor("min-raise-monotone", "paths recording a minimum raise", nPRS, 3)
 	}
 
 	// ---- wager-monotone: every store to CurrentWager other than := 0
